@@ -651,7 +651,7 @@ fn instants_of_year(y: i64, rng: &mut u64) -> Vec<SolarTime> {
   let dates = dates_of_year(y);
   let mut picks = vec![dates[0], dates[dates.len() - 1], dates[58 % dates.len()], dates[59 % dates.len()]];
   if y == 1582 { picks.push((1582, 10, 4)); picks.push((1582, 10, 15)); }
-  for _ in 0..3 { picks.push(dates[(lcg(rng) as usize) % dates.len()]); }
+  for _ in 0..crate::mult(3, 20) { picks.push(dates[(lcg(rng) as usize) % dates.len()]); }
   for (yy, m, d) in picks {
     for (h, mi, s) in [(0usize, 0usize, 0usize), (23, 59, 59), (12, 0, 0), (13, 1, 0), (0, 10, 0), ((lcg(rng) % 24) as usize, (lcg(rng) % 60) as usize, (lcg(rng) % 60) as usize)] {
       v.push(SolarTime::from_ymd_hms(yy as isize, m as usize, d as usize, h, mi, s));
@@ -697,7 +697,7 @@ fn c12_roundtrip(lo: i64, hi: i64, seed: u64, out: &mut Out) {
     for _ in 0..4 { picks.push(dates[(lcg(&mut rng) as usize) % dates.len()]); }
     for (yy, m, d) in picks {
       let mut secs: Vec<i64> = vec![0, 1, 59, 60, 3599, 3600, 43199, 43200, 43201, 86398, 86399, 86340, 82800];
-      for _ in 0..40 { secs.push((lcg(&mut rng) % 86400) as i64); }
+      for _ in 0..crate::mult(40, 400) { secs.push((lcg(&mut rng) % 86400) as i64); }
       for sd in secs {
         out.evaluations += 1;
         let t = SolarTime::from_ymd_hms(yy as isize, m as usize, d as usize, (sd / 3600) as usize, ((sd / 60) % 60) as usize, (sd % 60) as usize);
